@@ -104,6 +104,44 @@ theorem persisted_revision_ok (h : Host) (r : Req) :
     case attach l => obtain ⟨_, _, _, h2⟩ := decideAttach_eff he (by simp); cases h2
     case detach l => obtain ⟨_, _, h2⟩ := decideDetach_eff he (by simp); cases h2
 
+/-- the totals the host charges never leave the 128-bit range of `types.Currency`: a fund or
+replenish request whose deposits add up beyond 2^128-1 is never committed (the handler's
+`Currency.Add` panics and the stream is closed), so the natural-number arithmetic of the model and
+the 128-bit arithmetic of the code agree on every committed revision — no total can wrap -/
+theorem credited_total_fits_currency (h : Host) (r : Req) (pool : Bool) (cid : Nat) (c : Contract) (ds : List (Nat × Nat))
+    (he : (Rhp.decide h r).eff = .credit pool cid c ds) : depositTotal ds ≤ maxCurrency := by
+  cases r <;> simp only [Rhp.decide] at he
+  case garbage => simp [reject] at he
+  case latest cid' => unfold decideLatest at he; split at he <;> simp [reject] at he
+  case balance => simp at he
+  case read p t root off len => obtain ⟨_, _, _, _, h2⟩ := decideRead_eff he (by simp); cases h2
+  case write p t len data => obtain ⟨_, _, _, _, _, h2⟩ := decideWrite_eff he (by simp); cases h2
+  case verify p t root leaf => obtain ⟨_, _, _, _, h2⟩ := decideVerify_eff he (by simp); cases h2
+  case free cid' p chal is second =>
+    obtain ⟨_, _, _, _, _, _, _, _, _, _, _, h2⟩ := decideFree_eff he (by simp); cases h2
+  case append cid' p chal sectors second =>
+    obtain ⟨_, _, _, _, _, _, _, _, _, _, _, h2⟩ := decideAppend_eff he (by simp); cases h2
+  case roots cid' p off len sig => obtain ⟨_, _, _, _, _, _, _, _, _, _, h2⟩ := decideRoots_eff he (by simp); cases h2
+  case fund cid' ds' sig =>
+    have hle := decideFund_total_le he (by simp)
+    obtain ⟨_, _, _, _, _, _, _, h2⟩ := decideFund_eff he (by simp)
+    cases h2; exact hle
+  case replenish pool' cid' accounts target chal second =>
+    have hle := decideReplenish_total_le he (by simp)
+    obtain ⟨_, _, _, _, _, _, _, _, _, _, _, h2⟩ := decideReplenish_eff he (by simp)
+    cases h2; exact hle
+  case attach l => obtain ⟨_, _, _, h2⟩ := decideAttach_eff he (by simp); cases h2
+  case detach l => obtain ⟨_, _, h2⟩ := decideDetach_eff he (by simp); cases h2
+
+/-- a fund request whose deposits overflow 128 bits changes nothing, whatever it is signed over -/
+theorem overflowing_deposits_change_nothing (h : Host) (cid : Nat) (ds : List (Nat × Nat)) (sig : Sig)
+    (hov : maxCurrency < depositTotal ds) : (step h (.fund cid ds sig)).1 = h := by
+  have : (decideFund h cid ds sig).eff = .none := by
+    by_cases hn : (decideFund h cid ds sig).eff = .none
+    · exact hn
+    · have := decideFund_total_le rfl hn; omega
+  simp only [step, Rhp.decide, this, apply]
+
 /-- what `RevStep` says, spelled out in the property's words -/
 theorem revStep_meaning {old new : Contract} {cost : Nat} (s : RevStep old new cost) :
     old.body.rev < new.body.rev ∧
